@@ -6,9 +6,9 @@
    Model/Demux.v, Model/H2Pool.v (HTTP/2 connection cache + stream table), Model/H3Cache.v
    (HTTP/3 connection cache). *)
 From Coq Require Import List ZArith.
-From ReqV Require Import Lib.Bytes Model.Pool Model.Demux Model.H2Pool Model.H3Cache
+From ReqV Require Import Lib.Bytes Model.Pool Model.Demux Model.H2Pool Model.H3Cache Model.Carried
   Proofs.PoolProofs Proofs.DemuxProofs Proofs.H2PoolProofs Proofs.H3CacheProofs
-  Gen.C09Sync Proofs.C09SyncProofs.
+  Gen.C09Sync Proofs.C09SyncProofs Proofs.CarriedProofs.
 Import ListNotations.
 
 (* an HTTP/1.1 connection is handed to at most one request at a time, and is never in the idle
@@ -235,6 +235,71 @@ Theorem C09_model_constants_agree :
   go_streamIDStep = 2.
 Proof. exact model_constants_agree. Qed.
 Print Assumptions C09_model_constants_agree.
+
+(* ---------- state carried across exchanges / goroutines (Model/Carried.v) ---------- *)
+
+(* an HTTP/1.1 connection that goes back to the pool after an "Expect: 100-continue" exchange
+   carried the whole announced request body (so the origin, framing by Content-Length, is
+   aligned for the next request) *)
+Theorem C09_expect_recycle_complete : forall got100 rc qc other n r,
+  r_alive r = alive_of rc qc other -> recycle_ok r = true ->
+  body_written (expect_signal got100 rc qc) n = n.
+Proof. exact expect_recycle_complete. Qed.
+Print Assumptions C09_expect_recycle_complete.
+
+Theorem C09_expect_always_skip_refuted :
+  let sig := SigSkip in
+  exists r n, r_alive r = alive_of false false true /\ recycle_ok r = true /\ body_written sig n <> n.
+Proof. exact expect_always_skip_refuted. Qed.
+Print Assumptions C09_expect_always_skip_refuted.
+
+(* every request on a kept-alive connection is seen by the origin with its own body, for every
+   sequence of requests that wrote as many body bytes as they announced *)
+Theorem C09_request_framing_aligned : forall reqs : list wreq,
+  (forall tag n b, In (tag, n, b) reqs -> length b = n) ->
+  srv_parse (length reqs) (flat_map emit_req reqs) =
+  map (fun r : wreq => let '(tag, n, b) := r in (tag, map WByte b)) reqs.
+Proof. exact srv_parse_aligned. Qed.
+Print Assumptions C09_request_framing_aligned.
+
+(* HTTP/2: for every sequence of response header blocks on a connection (any fragmenting, any
+   sizes around MaxHeaderListSize), whatever is delivered to a caller is what the sender
+   encoded for that response - the HPACK dynamic table never falls behind while the connection
+   is in use - and after a skipped (undecoded) fragment nothing is delivered any more *)
+Theorem C09_h2_delivered_fields_are_the_senders : forall limit bs,
+  outcomes_ok [] bs (hconn_run (hconn_step limit) hconn_init bs).
+Proof. exact h2_delivered_fields_are_the_senders. Qed.
+Print Assumptions C09_h2_delivered_fields_are_the_senders.
+
+Theorem C09_h2_nothing_delivered_after_conn_error : forall limit bs s, hdead s = true ->
+  Forall (fun o => o = HConnErr) (hconn_run (hconn_step limit) s bs).
+Proof. exact h2_nothing_delivered_after_conn_error. Qed.
+Print Assumptions C09_h2_nothing_delivered_after_conn_error.
+
+Theorem C09_h2_skipping_refuted :
+  let bs := [[(5, [HIns (7, 5)])]; [(100, [HIns (8, 5)])]; [(3, [HRef 0])]] in
+  hconn_run (hconn_step_skipping 10) hconn_init bs = [HDelivered [(7, 5)]; HStreamErr; HDelivered [(7, 5)]] /\
+  ~ outcomes_ok [] bs (hconn_run (hconn_step_skipping 10) hconn_init bs) /\
+  hconn_run (hconn_step 10) hconn_init bs = [HDelivered [(7, 5)]; HConnErr; HConnErr].
+Proof. exact h2_skipping_refuted. Qed.
+Print Assumptions C09_h2_skipping_refuted.
+
+(* asynchronous dump: for every interleaving of buffer reuse, DumpTo calls and dumper progress
+   the output is what was handed over at the moment of each call *)
+Theorem C09_async_dump_is_snapshot : forall evs, q_final evs = q_handed (fun _ => []) evs.
+Proof. exact async_dump_is_snapshot. Qed.
+Print Assumptions C09_async_dump_is_snapshot.
+
+Theorem C09_async_dump_stream_intact : forall chunks,
+  concat (q_final (async_dump_events chunks)) = concat chunks.
+Proof. exact async_dump_stream_intact. Qed.
+Print Assumptions C09_async_dump_stream_intact.
+
+Theorem C09_async_alias_refuted :
+  let evs := [QWrite 0 (bs "first"); QDump 0; QWrite 0 (bs "SECND"); QDump 0; QDrain; QDrain] in
+  q_final evs = [bs "first"; bs "SECND"] /\ qa_final evs = [bs "SECND"; bs "SECND"].
+Proof. exact async_alias_refuted. Qed.
+Print Assumptions C09_async_alias_refuted.
 
 (* non-vacuity of the HTTP/2 and HTTP/3 machines: two requests share one dialled connection with
    stream ids 1 and 3, a third id is 5 after the first finished; the HTTP/3 client is closed by
